@@ -126,7 +126,7 @@ class XsdElement(XsdComponent, ParticleMixin,
     substitutes: set[str] | tuple[()] = ()
     identities: list[XsdIdentity]
     selected_by: set[XsdIdentity]
-    xsi_types: set[BaseXsdType]
+    xsi_types: set[tuple[BaseXsdType, XsdIdentity]]
     alternatives: Union[tuple[()], list['XsdAlternative']] = ()
     inheritable: Union[tuple[()], dict[str, XsdAttribute]] = ()
 
@@ -669,19 +669,21 @@ class XsdElement(XsdComponent, ParticleMixin,
                 if xsd_type.is_blocked(self):
                     reason = _("usage of %r is blocked") % xsd_type
                     context.validation_error(validation, self, reason, obj)
-                elif xsd_type not in self.xsi_types:
-                    self.xsi_types.add(xsd_type)
-
+                elif xsd_type.has_complex_content():
                     # For complex contents augments permanently the XSD elements
-                    # that collect keys/keyrefs for enabled identities.
-                    if xsd_type.has_complex_content():
-                        xpath_element = XPathElement(self.name, xsd_type)
-                        for counter in context.identities.values():
-                            if counter.enabled:
-                                try:
-                                    counter.identity.update_elements(xpath_element)
-                                except TypeError as e:
-                                    context.validation_error(validation, self, e, obj)
+                    # that collect keys/keyrefs for enabled identities (once for
+                    # each identity that meets this type on this element).
+                    xpath_element = None
+                    for counter in context.identities.values():
+                        if counter.enabled and \
+                                (xsd_type, counter.identity) not in self.xsi_types:
+                            self.xsi_types.add((xsd_type, counter.identity))
+                            if xpath_element is None:
+                                xpath_element = XPathElement(self.name, xsd_type)
+                            try:
+                                counter.identity.update_elements(xpath_element)
+                            except TypeError as e:
+                                context.validation_error(validation, self, e, obj)
 
         if xsd_type.abstract:
             reason = _("%r is abstract") % xsd_type
